@@ -51,6 +51,9 @@ def equivalent_layers(h, p, L, w=None):
     for i in range(L):
         ix_tmp = ix==i+1
         cn2_el[i] = p[ix_tmp].sum()
+        if cn2_el[i] == 0:
+            # slab without turbulence: nothing to weight a height by, leave height (and wind) at 0
+            continue
         h_el[i] = ((p[ix_tmp] * h[ix_tmp]**(5/3)).sum() / p[ix_tmp].sum())**(3/5)
         if w is not None:
             w_el[i] = ((p[ix_tmp] * w[ix_tmp]**(5/3)).sum() / p[ix_tmp].sum())**(3/5)
